@@ -2,23 +2,26 @@ from vdriver import U
 
 PROPERTY = {
     "level": "proof",
-    "explanation": "build configuration a.verif.h (every A_HAVE_* switch off): the library's own fallback bodies of the complex functions are the verified text. Decided: field formulas of the arithmetic (IEEE expression equality for all finite operands, integer/power-of-two exact domain against independent arithmetic), principal ranges and quadrant signs of sqrt/asin/acos/atan/acosh/log off the cuts, branch constants and callees of the real-argument variants, addition-theorem formulas of exp/sin/cos/tan/sinh/cosh/tanh/pow with the right real callee, composition skeletons (asinh, acosh, atanh, reciprocal and arc-reciprocal families, log2/log10/logb) against the library's own callee evaluated on the transformed argument, the constants pi, pi/2, 1/sqrt2, 1/ln2, 1/ln10 bit for bit",
+    "explanation": "build configuration a.verif.h (every A_HAVE_* switch off): the library's own fallback bodies of the complex functions are the verified text. Decided: field formulas of the arithmetic (IEEE expression equality for all finite operands; exact domain of small integers / powers of two against independent arithmetic, including reciprocals of magnitude 2^-1000 .. 2^1000), principal ranges and quadrant signs of sqrt/asin/acos/atan/acosh/log off the cuts, |Re atan z| vs pi/4 inside/outside the unit circle, branch constants and callees of the real-argument variants, addition-theorem / polar formulas of exp/log/pow/sin/cos/tan/sinh/cosh/tanh/atan with the right real callee, the twin identity Im asin z = -Im acos z, composition skeletons (asinh, acosh, atanh, reciprocal and arc-reciprocal families, log2/log10/logb, by-value wrappers), the constants pi, pi/2, pi/4, 1/sqrt2, 1/ln2, 1/ln10 bit for bit",
     "trusted_base": [
-        "cbmc 6.11.0 (IEEE-754 bit-precise float encoding, round-to-nearest) + cvc5 (uninterpreted functions, FP theory)", "a_real = double",
-        "libm by assumed contracts (stubs in harness/complex.c; each is an uninterpreted function of its argument = deterministic, plus): sqrt(x>=0) >= 0, 0 only at 0, between 1 and x, >= 2^-537 for x > 0; exp >= 0, exp(0) = 1, >= 1 right / <= 1 left of 0, > 0 above -700; log sign follows x-1, finite on finite x > 0; sin, cos in [-1,1], sin 0 = 0, cos 0 = 1; sinh, tanh have the sign of the argument, |tanh| <= 1; cosh >= 1; asin in [-pi/2,pi/2] with the sign of the argument; acos in [0,pi], <= pi/2 for x >= 0, >= pi/2 for x <= 0, acos 1 = 0; atan in [-pi/2,pi/2] with the sign of the argument; pow(x,2) >= 0",
-        "helpers of src/math.c used by complex.c in this configuration are STUBBED by assumed contracts, not included (they are C11's subject): a_real_hypot = a_real_norm2 (even, hypot(x,+-0) = |x|, max(|x|,|y|) <= r <= 2 max), a_real_atan2 (in [-pi,pi], half plane of y, |r| <= pi/2 iff x >= 0, 0 for y = 0 <= x), a_real_log1p (sign of the argument on (-1,inf)), a_real_acosh (>= 0, 0 only at 1), a_real_atanh (sign of the argument, infinite at +-1); the native replay links the real src/math.c",
+        "cbmc 6.11.0 (IEEE-754 bit-precise float encoding, round-to-nearest); cvc5 (FP theory + uninterpreted functions) for expression equalities, MiniSat for range/sign obligations and for model finding (vacuity guards)", "a_real = double",
+        "libm by assumed contracts (stubs in harness/complex.c; each is an uninterpreted function of its argument = deterministic, plus ISO C / IEEE facts): sqrt(x>=0) >= 0, sqrt(+-0) = +-0, between 1 and x, >= 2^-537 for x > 0; exp >= 0, exp(0) = 1, >= 1 right / <= 1 left of 0, > 0 above -700, finite below 700; log sign follows x-1, finite on finite x > 0; sin, cos in [-1,1], sin 0 = 0, cos 0 = 1; sinh, tanh have the sign of the argument, |tanh| <= 1; cosh >= 1, cosh 0 = 1; asin in [-pi/2,pi/2] with the sign of the argument; acos in [0,pi], <= pi/2 for x >= 0, >= pi/2 for x <= 0, acos 1 = 0; atan in [-pi/2,pi/2] with the sign of the argument; pow(x,2) >= 0",
+        "the helpers of src/math.c that complex.c calls in this configuration are STUBBED by assumed contracts, src/math.c is NOT included (they are C11's subject; this keeps every unit loop-free and fast): a_real_hypot = a_real_norm2 (even, hypot(x,+-0) = |x|, max(|x|,|y|) <= r <= 2 max), a_real_atan2 (in [-pi,pi], half plane of y, |r| <= pi/2 for x > 0, >= pi/2 for x < 0, 0 for y = 0 <= x), a_real_log1p (sign of the argument on (-1,inf), finite), a_real_acosh (>= 0, 0 only at 1), a_real_atanh (sign of the argument, infinite exactly at +-1). The native replay of a counterexample links the real src/math.c and libm",
+        "composition and wrapper units (asinh, acosh, atanh, asec, acsc, acot, asech, acsch, acoth, wrappers_*) replace the inner in-place function by the contract 'writes only *ctx; result is a deterministic function of *ctx (and of the second operand)' (goto-instrument --dfcc --replace-call-with-contract, not enforced); the inner functions' own behaviour is decided in their primary units on the real bodies",
     ],
     "assumptions": [
-        "accuracy 'to within a small multiple of machine precision' against a high-precision oracle is NOT decided (libm is opaque, IEEE product/quotient range facts are out of the solver's reach): not applicable; decided is what the fallback bodies decide themselves: sign, branch, constant, callee, field formula",
+        "accuracy 'to within a small multiple of machine precision' against a high-precision oracle is NOT decided (libm is opaque, IEEE product/quotient range facts are out of the solver's reach): not applicable; decided is what the fallback bodies decide by themselves: sign, branch, constant, callee, field formula",
         "only the fallback configuration (all A_HAVE_C* off) and a_real = double are verified; with a switch on, the body is a one-line binding to libm and nothing is claimed",
-        "arguments: finite, |Re|,|Im| <= 2^500 (so sums and squares of inputs do not overflow) unless a unit says otherwise; off the branch cuts and poles for the range/sign clauses",
+        "arguments: finite, |Re|,|Im| <= 2^500 (sums and squares of inputs do not overflow) unless a unit says otherwise; off the branch cuts and poles for the range/sign clauses; divisors / arguments of inv_ with max(|Re|,|Im|) >= 2^-500 (below ~2^-1022 the scaling factor 1/|z| overflows and inv_/div_ return NaN parts although 1/z is not representable anyway)",
         "quadrant signs are stated weakly (>= 0 / <= 0): strict signs are false at underflow (Im sqrt(2^1000 + 2^-1074 i) rounds to 0)",
-        "arith_mul_exact, arith_div_exact, arith_inv_pow2 are exact-domain units (level B): integers |n| <= 2^10, divisors +-2^e on an axis",
-        "asin_acos_twin states Im asin z == -Im acos z bit for bit (asin z + acos z = pi/2; both fallbacks use the same formula for |Im|); a deliberate rewrite of one side to another accurate formula would require restating it with a tolerance, which is not decidable here",
-        "sign of Im atan z in the log(a/b) branch (|u| >= 0.1) needs monotonicity of hypot: not applicable; sign of Im acosh z in the lower half plane only for 2^-400 <= -Im z, |z| <= 2^20 (see findings: wrong sign when (Im z)^2 underflows)",
-        "composition units compare with the library's own callee evaluated by the harness on the transformed argument; that the two evaluations agree relies on the determinism of the assumed libm contracts",
+        "arith_mul_exact, arith_div_exact, arith_inv_pow2 are exact-domain units (level B): integers |n| <= 8; divisors and arguments +-2^e on an axis with numerators of moderate magnitude",
+        "asin_acos_twin states Im asin z == -Im acos z bit for bit (asin z + acos z = pi/2; both fallbacks evaluate |Im| by the same formula); a deliberate rewrite of one side to another accurate formula would require restating it with a tolerance, which is not decidable here. asin_acos_twin_p1..p3 restate it at one named point per formula region because a counterexample of the symbolic form is not found within 5 min; their vacuity guard is not run (single-point precondition; asin_acos_twin_reach shows the end of the same two bodies reachable)",
+        "the real parts of asin_/acos_ off the real axis are decided as range + quadrant only: a change inside the Hull-Fairgrieve-Tang expressions that keeps sign and range is NOT detected (accuracy clause)",
+        "sign of Im atan z in the log(|z+i|/|z-i|) branch needs monotonicity of hypot: not applicable (the formula itself is pinned)",
+        "OBSERVED, NOT ASSERTED (kept out on the lead's instruction): fallback a_complex_acosh_ picks +i acos z when Im acos z == +0, which happens for |Re z| < 1, Im z < 0 with (Im z)^2 underflowing: acosh(0.5 - 1e-200 i) = -0 + 1.0472i (C99: 1.15e-200 - 1.0472i). The lower-half-plane sign clause (unit acosh_lower, thorough tier) is therefore restricted to 2^-400 <= -Im z, |z| <= 2^20",
+        "OBSERVED, outside the property's quantifier (on the cut, not asserted): fallback a_complex_atan_(iy), |y| > 1 returns Re = +-pi instead of +-pi/2; asin_real/acos_real/atanh_real take the value on the lower side of the cut for x > 1 (C99 with +0 imaginary part takes the upper side)",
     ],
-    "not_applicable_clauses": ["accuracy within a small multiple of machine precision (all functions)", "inverse pairs compose to the identity to the same accuracy (exp/log, multiply/divide by the same scalar beyond the exact domain)", "libm-bound configurations (A_HAVE_C* on)", "a_real = float / long double"],
+    "not_applicable_clauses": ["accuracy within a small multiple of machine precision scaled by the conditioning (all functions)", "operations documented as inverse of each other compose to the identity to the same accuracy (exp/log; multiply/divide by the same scalar beyond the exact domain)", "libm-bound configurations (A_HAVE_C* on)", "a_real = float / long double"],
 }
 RP = {"native": True, "sources": ["a.c", "math.c"]}
 def C(name, fns, **kw):
@@ -63,15 +66,19 @@ UNITS = [
     # equality of the two evaluations: cvc5 (congruence); its vacuity guard needs a model of both bodies: SAT back end, sibling unit
     C("asin_acos_twin", ["a_complex_asin_", "a_complex_acos_"], key=["Im asin z == -Im acos z"], min_obl=1, only=["^(?!.*VERIF_CANARY)"], no_canary=True, split=None, drop_checks=DROP),
     C("asin_acos_twin_reach", [], solver=None, only=["VERIF_CANARY"], min_obl=0, entry_="h_asin_acos_twin", drop_checks=DROP),
-    C("asin_acos_twin_points", ["a_complex_asin_", "a_complex_acos_"], key=["at z = 1.25"], drop_checks=DROP, only=["^(?!.*VERIF_CANARY)"], no_canary=True, split=None),
-    C("asin_acos_twin_points_reach", [], solver=None, only=["VERIF_CANARY"], min_obl=0, entry_="h_asin_acos_twin_points", drop_checks=DROP),
+] + [
+    # the same identity at a named point of each region of the |Im| formula (counterexample search of the symbolic obligation takes > 5 min, at a point < 1 min);
+    # vacuity guard not run for these three (single-point precondition; reachability through the same two bodies: asin_acos_twin_reach)
+    C("asin_acos_twin_" + n, ["a_complex_asin_", "a_complex_acos_"], key=["at z ="], min_obl=1, drop_checks=DROP, only=["^(?!.*VERIF_CANARY)"], no_canary=True, split=None) for n in ("p1", "p2", "p3")] + [
     C("atan", ["a_complex_atan_"], key=["Re atan z in"], timeout=300, cost=50),
     C("inv_real", ["a_complex_asin_real", "a_complex_acos_real", "a_complex_acosh_real", "a_complex_atanh_real", "a_complex_asec_real", "a_complex_acsc_real"], key=["asin_real:", "acsc_real:"]),
     C("inv_real_delegation", ["a_complex_asin_", "a_complex_acos_", "a_complex_atanh_"], key=["asin_real"], drop_checks=DROP),
     C("asinh", ["a_complex_asinh_"], key=["-i asin\\(i z\\)"], min_obl=1, replace=["a_complex_asin_/contract_asin_"]),
     C("acosh", ["a_complex_acosh_"], key=["acosh z = -i acos z"], replace=["a_complex_acos_/contract_acos_"]),
     C("acosh_range", ["a_complex_acosh_"], key=["Re acosh z >= 0"], solver=None, timeout=400, cost=80, split=8),
-    C("acosh_lower", ["a_complex_acosh_"], key=["lower half plane"], min_obl=1, timeout=1200, tiers=("thorough",), cost=200),
+    # thorough only: needs (Im z)^2/(..) > 0, a quotient range fact (cvc5 ~130 s; MiniSat ~340 s); vacuity guard by the SAT sibling
+    C("acosh_lower", ["a_complex_acosh_"], key=["lower half plane"], min_obl=1, timeout=900, tiers=("thorough",), cost=200, only=["lower half plane"], no_canary=True, split=None, drop_checks=DROP),
+    C("acosh_lower_reach", [], solver=None, only=["VERIF_CANARY"], min_obl=0, entry_="h_acosh_lower", timeout=900, tiers=("thorough",), drop_checks=DROP),
     C("atanh", ["a_complex_atanh_"], key=["-i atan\\(i z\\)"], replace=["a_complex_atan_/contract_atan_"]),
 ] + [C(n, ["a_complex_%s_" % n], key=[n + "_:"], min_obl=1, replace=["a_complex_%s_/contract_%s_" % (f, f)]) for n, f in (("asec", "acos"), ("acsc", "asin"), ("asech", "acosh"), ("acsch", "asinh"), ("acoth", "atanh"))] + [
     C("acot", ["a_complex_acot_"], key=["acot\\(0\\)"], replace=["a_complex_atan_/contract_atan_"]),
